@@ -373,8 +373,12 @@ def rule_c(ctx):
 
 
 def rule_d(ctx):
-    from .c05 import rule_a as c05a
+    from .c05 import rule_a as c05a, rule_b as c05b
     c05a(ctx)
+    c05b(ctx)
+    # credit frames are not subject to the lease: REQUEST_N is never held and consumes no allowance
+    from .c14 import rule_gate_scope
+    rule_gate_scope(ctx)
 
 
-RULES = [('C06.a', rule_a), ('C06.b', rule_b), ('C06.c', rule_c), ('C05.a', rule_d)]
+RULES = [('C06.a', rule_a), ('C06.b', rule_b), ('C06.c', rule_c), ('C05.a+C05.b+C14.f', rule_d)]
